@@ -173,6 +173,9 @@ func parseRpmHeader(b []byte) (*RpmHeader, int, error) {
 			h.Errs = append(h.Errs, fmt.Sprintf("tag %d offset %d outside store (%d)", t.Tag, t.Offset, len(store)))
 			continue
 		}
+		if t.Count == 0 {
+			h.Errs = append(h.Errs, fmt.Sprintf("tag %d has count 0 (librpm rejects such a header: 'hdr data: BAD')", t.Tag))
+		}
 		d := store[t.Offset:]
 		bad := func() {
 			h.Errs = append(h.Errs, fmt.Sprintf("tag %d (type %d count %d) runs past the store", t.Tag, t.Type, t.Count))
